@@ -9,6 +9,11 @@ MODELLED = ('Trusted: Coq 8.16.1 kernel (no axioms: every theorem in coq/Props/%
             'the Python harness abstraction/canonicalisation. ')
 
 CHECKS = {
+    'C16': dict(
+        text='Theorem over the executable model of the CSVW date-format translation (all field lists of any length, all documented separators), with the replacement chain regenerated from the source by the translator on every run; exact-string correspondence of the extracted model with csvw_date_format_to_md_date_format; an end-to-end oracle writes typed tables with CSVW metadata and reloads them with csv2pandas.',
+        note='pandas read_csv / strptime semantics of the produced format and the metadata plumbing (CSVWMetadata, to_pandas_read_csv_args) are not modelled: covered by the round-trip oracle only (partial).',
+        technique='Coq proof (translate_correct by induction over the field list + blocked-replace lemma) + translator-pinned constants + differential and round-trip testing',
+        design='7 C16'),
     'C19': dict(
         text='Theorems over an executable Gallina model of the argv scanner and of tag-based loading '
              '(all argv lists, all modules); the model is tied to /repo on every run by the constant '
